@@ -199,7 +199,8 @@ def gen_cases(tier: str) -> list[dict]:
     cases = []
     for i in range(n):
         r = random.Random(rng.getrandbits(64))
-        cases.append(make_case(r, tier, big=(tier == "thorough" and i % 5 == 0)))
+        # strata: every 6th case has ODE modifiers, every 6th comes through files (the rest by the default probabilities)
+        cases.append(make_case(r, tier, big=(tier == "thorough" and i % 5 == 0), mod_p=(1.0 if i % 6 == 1 else 0.2), file_p=(1.0 if i % 6 == 2 else 0.4)))
     if True:
         cases.append({"net": {"species": [], "reactions": [], "required": []}, "alphas": [], "entry": "api",
                       "ys": [{"__TGAS__": 1e4}], "ks": [[1.25]], "special": "empty"})
